@@ -399,6 +399,8 @@ class Program:
                 return self.lowlevel(sess), False
             if r < 0.27:
                 return self.set_wl_max(), False
+            if r < 0.30:
+                return self.other_worklist(), False
             return self.liquid_op(sess, "ok"), False
         if i == self.n_prefix:
             fk = self.fault_kind
@@ -421,6 +423,20 @@ class Program:
             new = float(max(1, int(cur / 2)))
         g.wl_max = float(new)
         return {"op": "set_wl_max", "value": enc(int(new) if rng.random() < 0.7 else float(new))}
+
+    def other_worklist(self):
+        """a second worklist object with other settings is created and kept alive next to the first one"""
+        from ..sim.geom import enc
+        rng, g = self.rng, self.gen
+        w = self.world["worklist"]
+        mv = rng.choice([g.wl_max * 5, g.wl_max * 20, 5000, 100000, max(1.0, g.wl_max / 4)])
+        op = {"op": "other_worklist", "max_volume": enc(int(mv) if mv >= 1 else float(mv)),
+              "auto_split": not w["auto_split"] if rng.random() < 0.5 else w["auto_split"],
+              "diti_mode": not w["diti_mode"] if rng.random() < 0.5 else w["diti_mode"],
+              "device": rng.choice(["evo", "fluent", "base"])}
+        if rng.random() < 0.3:
+            op["then_max_volume"] = enc(int(rng.choice([10000, 7, 300])))
+        return op
 
     def lowlevel(self, sess):
         rng = self.rng
